@@ -254,6 +254,14 @@ class Printer:
                                         "stmts": [(a, self.n)], "ctx": ctx})
                 self.w("\n")
             self.w("  " * ind + "}")
+        elif k == "Try":
+            # ("Try", body, catch variable, catch body)
+            self.w("try ")
+            self.block(e[1], ind, ctx, path + (0,), "Try", "body")
+            self.w(" catch (")
+            self.sym(e[2], "def-catch", path + ("catch",))
+            self.w(") ")
+            self.block(e[3], ind, ctx, path + (1,), "Try", "catch")
         elif k == "Let":
             self.w("let ")
             self.dest(e[1], "def-let" if e[1][0] == "Sym" else "def-destructure", path)
